@@ -67,6 +67,18 @@ def shrink_steps(c):
         size //= 2
     for i in range(n):
         yield dict(c, steps=steps[:i] + steps[i + 1:])
+    if c["n"] > 2:      # one child fewer: its messages go, higher indices move down
+        for ch in range(c["n"]):
+            st2 = []
+            for st in steps:
+                if st["k"] == "child":
+                    i = st.get("i", 0)
+                    if i == ch:
+                        continue
+                    if i > ch:
+                        st = dict(st, i=i - 1)
+                st2.append(st)
+            yield dict(c, n=c["n"] - 1, steps=st2)
     for i, st in enumerate(steps):
         if st["k"] == "req":
             fs = st.get("fs") or []
